@@ -171,7 +171,7 @@ def impl_sx(r):
 def unhex(r):
     """readable form of an 'err CLASS xHEX' result"""
     parts = r.split()
-    if len(parts) >= 3 and parts[-1].startswith('x'):
+    if len(parts) >= 2 and parts[-1].startswith('x'):
         try:
             return ' '.join(parts[:-1]) + ' ' + bytes.fromhex(parts[-1][1:]).decode('utf-8', 'replace').replace('\n', ' ')
         except ValueError:
@@ -196,6 +196,8 @@ def evaluate(cases):
     for c in cases:
         r = res.get(c.id, 'crash missing')
         v = verd.get(c.id) or ('bad (runner: %s)' % unhex(r)[:300])
+        if r.startswith('impure'):
+            v = unhex(r)[:900]
         out.append((c, r, v))
     return out
 
@@ -474,6 +476,24 @@ def cases_C05(rng, tier):
     for i in range(n):
         r = rng.random()
         cid = 'p%d' % i
+        if rng.random() < 0.05:
+            # a union at the top whose members are option-type (the branch of ak.flatten(axis=0) / ak.num / ak.local_index
+            # that rewrites the union's index): outside the value-level specification (unions), but crash / purity /
+            # validity of the result are still judged
+            while True:
+                kw = dict(allow_union=False, allow_opt=False, allow_str=False)
+                ta, tb = G.gen_type(rng, rng.choice([0, 1, 2]), **kw), G.gen_type(rng, rng.choice([0, 1, 2]), **kw)
+                if G.type_key(ta) != G.type_key(tb):
+                    break
+            t = ('union', [('opt', ta), ('opt', tb) if rng.random() < 0.5 else tb])
+            vals = [G.gen_value(rng, t, 3, False) for _ in range(rng.choice([1, 2, 3, 4, 5]))]
+            enc = G.Enc(rng, special=False)
+            lay = G.encode(enc, t, vals)
+            func = rng.choice(['flatten', 'flatten', 'flatten', 'num', 'local_index'])
+            axis = rng.choice([0, 0, 0, 1, -1])
+            out.append(C.Case(cid, func, [str(axis)], [arr(lay)],
+                              dict(nontrivial=True, tags=dict(func=func, axis=axis, union_of_options=True), types=[t])))
+            continue
         if r < 0.22:
             single = rng.random() < 0.5
             kw = dict(allow_union=rng.random() < 0.06)
@@ -1167,7 +1187,8 @@ def summarize(prop, cases, res):
         if sig is None or not is_known(sig):
             per_func_ok[ob] = False
         what = '%s: the Python layer %s  [%s]' % (
-            f, 'crashed (%s)' % unhex(impl)[:200] if kind == 'crash' else 'differs from its specification', v[:600])
+            f, 'crashed (%s)' % unhex(impl)[:200] if kind == 'crash' else
+            ('MODIFIED ITS INPUT (operations must be pure)' if kind == 'impure' else 'differs from its specification'), v[:600])
         findings.append(dict(kind=kind, what=what, signature=sig, size=len(c.line()),
                              case_lines=[c.line(), '# impl: ' + unhex(impl)[:1200], '# verdict: ' + v[:1500]]))
     best = {}
